@@ -300,7 +300,13 @@ def runHist (payload : String) : String × String × String :=
   | .stk _ c xs =>
     let s : Stk := { cfg := c, xs := xs }
     let ops := match parts with
-      | [_, o] => if o.trimAscii.toString == "" then [] else (o.splitOn " ; ").map (fun t => parseHOp (words t))
+      | [_, o] => if o.trimAscii.toString == "" then [] else
+          -- `again` offers the latest batch once more (the harness spreads the very same slice)
+          ((o.splitOn " ; ").foldl (fun (acc : List HOp × List Val) t =>
+            match words t with
+            | ["again"] => (HOp.list (.push acc.2) :: acc.1, acc.2)
+            | "push" :: rest => let vs := parseVals' rest; (HOp.list (.push vs) :: acc.1, vs)
+            | ws => (parseHOp ws :: acc.1, acc.2)) ([], [])).1.reverse
       | _ => []
     let m := histModel s ops [s!"init {obsModel s}"]
     let sp := histSpec (specOfStk s) ops [s!"init {obsSpec (specOfStk s)}"]
